@@ -189,19 +189,19 @@ int reproc_start(reproc_t *process,
   }
 
   r = redirect_init(&process->pipe.in, &child.in, REPROC_STREAM_IN,
-                    options.redirect.in, options.nonblocking, HANDLE_INVALID);
+                    &options.redirect.in, options.nonblocking, HANDLE_INVALID);
   if (r < 0) {
     goto finish;
   }
 
   r = redirect_init(&process->pipe.out, &child.out, REPROC_STREAM_OUT,
-                    options.redirect.out, options.nonblocking, HANDLE_INVALID);
+                    &options.redirect.out, options.nonblocking, HANDLE_INVALID);
   if (r < 0) {
     goto finish;
   }
 
   r = redirect_init(&process->pipe.err, &child.err, REPROC_STREAM_ERR,
-                    options.redirect.err, options.nonblocking, child.out);
+                    &options.redirect.err, options.nonblocking, child.out);
   if (r < 0) {
     goto finish;
   }
